@@ -238,6 +238,78 @@ def oracle(case, line):
                 want = "1" if view(pos, pos + n) == data else "0"
                 if f["cmp"] != want:
                     fail("compare-wrong", "compare_buffer returned %s, expected %s" % (f["cmp"], want), j)
+        elif k == "X":
+            idx, w, first, last = int(op[1]), op[2] == "1", int(op[3]), int(op[4])
+            steps = [] if op[6] == "-" else [int(x) for x in op[6].split(",")]
+            src = list(bytes.fromhex(op[7])) if op[7] != "-" else []
+            if idx >= R.npieces:
+                if o != "ERR:internal":
+                    fail("chunk-out-of-range-accepted", "chunk beyond the torrent was not refused", j)
+                continue
+            off, ln = idx * cs, R.piece_size(idx)
+            runs, t = [], 0
+            while t < ln:
+                fi, fo = R.locate(off + t)
+                ext = min(ln - t, lay[fi][0] - fo)
+                runs.append((t, ext, fi))
+                t += ext
+            touched = [r_[2] for r_ in runs]
+            if o == "NULL":
+                if w or all(R.sized[fi] or lay[fi][1] for fi in touched):
+                    fail("chunk-null", "chunk creation failed on a mappable range", j)
+                continue
+            if not w and any(not (R.sized[fi] or lay[fi][1]) for fi in touched):
+                fail("chunk-on-short-file", "read-only chunk mapped beyond a file's current size", j)
+                continue
+            if w:
+                for fi in touched:
+                    R.sized[fi] = True
+            f = dict(x.split("=", 1) for x in o.split(" "))
+            if (f.get("pre") == "ok") != (first < ln):
+                fail("preload", "Chunk::preload(%d, ..) on a %d byte chunk: %s" % (first, ln, f.get("pre")), j)
+            if first >= ln:
+                if f.get("xfer") != "ERR:internal":
+                    fail("read-out-of-chunk-accepted", "ChunkIterator beyond the chunk not refused", j)
+                continue
+            if f.get("xfer") == "ERR:internal":
+                fail("transfer-raised", "the transfer loop raised on a valid range", j)
+                continue
+
+            def run_of(t):
+                for (p0, ext, fi) in runs:
+                    if p0 <= t < p0 + ext:
+                        return p0 + ext, fi
+                raise AssertionError(t)
+
+            # the stream semantics: bytes go to / come from chunk positions first, first+1, ... in order;
+            # each iteration is offered the contiguous memory up to the end of the current file segment
+            pos, total, wins, si = first, 0, [], 0
+            while True:
+                end, _ = run_of(pos)
+                win = min(end - pos, last - pos)
+                wins.append(win)
+                n = min(steps[si], win) if si < len(steps) else 0
+                si += 1
+                if n == 0:
+                    break
+                total += n
+                pos += n
+                if pos >= last or pos >= ln:
+                    break
+            want_out = "-"
+            if w:
+                for t in range(total):
+                    fi = run_of(first + t)[1]
+                    if not lay[fi][1]:
+                        R.image[off + first + t] = src[t]
+            else:
+                want_out = hx([0 if lay[run_of(first + t)[1]][1] else R.get(off + first + t) for t in range(total)])
+            if f.get("xfer") != str(total):
+                fail("transfer-count", "the loop moved %s bytes, the schedule gives %d" % (f.get("xfer"), total), j)
+            elif f.get("out") != want_out:
+                fail("transfer-bytes", "bytes sent %s, the mapping says %s" % (f.get("out", "")[:40], want_out[:40]), j)
+            elif f.get("wins") != ",".join(str(x) for x in wins):
+                fail("transfer-windows", "windows offered %s, file segments give %s" % (f.get("wins"), wins), j)
         elif k == "H":
             idx = int(op[1])
             steps = [] if op[2] == "-" else [int(x) for x in op[2].split(",")]
@@ -469,6 +541,8 @@ def gen_ops(r, cs, lay, malformed=False):
             ps_ = R.piece_size(hi)
             st = [r.choice((0, 1, ps_ - 1, ps_, ps_ + 1, r.randrange(0, ps_ + 2))) for _ in range(r.randrange(0, 4))]
             ops.append("H %d %s" % (hi, ",".join(str(max(0, x)) for x in st) if st else "-"))
+        if r.random() < 0.25 and np_:
+            ops.append(x_op(r, R, pat, r.randrange(np_)))
         if r.random() < 0.08:
             ops += ["R", "Q"]
             marks = []
@@ -528,13 +602,39 @@ def canonical_ops(cs, lay, order_seed):
         ops.append("M %d" % idx)
     ops.append("Q")
     ops.append("C 0 %d 0 0 - 0 %d" % (R.total, R.total))
+    rx = random.Random(order_seed + 99)
     for idx in range(R.npieces):
         ops.append("H %d %s" % (idx, "-" if idx % 2 else "1,%d" % max(0, R.piece_size(idx) - 2)))
+        ops.append(x_op(rx, R, pat, idx, w=(idx % 3 != 0)))
+    ops.append("D")
     for idx in range(R.npieces):
         ops.append("V %d 0 %d" % (idx, R.piece_size(idx)))
         ops.append("V %d 1 %d" % (idx, R.piece_size(idx)))
     return ops
 
+
+
+def x_op(r, R, pat, idx, w=None):
+    """the down_chunk / up_chunk loop over a block [first,last) of piece idx with short transfers"""
+    ps = R.piece_size(idx)
+    first = r.randrange(ps)
+    last = r.randrange(first + 1, ps + 1)
+    if w is None:
+        w = r.random() < 0.6
+    n = last - first
+    kind = r.randrange(5)
+    if kind == 0:
+        steps = [n]                                   # one full transfer
+    elif kind == 1:
+        steps = [1] * n                               # byte by byte
+    elif kind == 2:
+        steps = [r.randrange(1, n + 2) for _ in range(r.randrange(1, n + 2))]
+    elif kind == 3:
+        steps = [r.randrange(1, 4) for _ in range(r.randrange(0, n))]     # stream dries up early
+    else:
+        steps = [r.choice((n, n + 5, 2 ** 32 - 1))] + [1] * 3
+    return "X %d %d %d %d %d %s %s" % (idx, int(w), first, last, r.randrange(2),
+                                       ",".join(str(x) for x in steps) if steps else "-", hx(pat.take(n)) if w else "-")
 
 
 def reopen_ops(r, cs, lay):
@@ -623,6 +723,12 @@ def loader_case(r):
             ops.append("P %d %d %d" % (i, r.randrange(s_), 16))
     for idx in order[:3]:
         ops.append("H %d %s" % (idx, r.choice(("-", "100", "1,1024", "512,512,512"))))
+        ps = R.piece_size(idx)
+        first = r.randrange(ps)
+        last = min(ps, first + r.randrange(1, 40))
+        st = [r.randrange(1, 12) for _ in range(r.randrange(1, 12))]
+        ops.append("X %d 1 %d %d 1 %s %s" % (idx, first, last, ",".join(map(str, st)), hx(pat.take(last - first))))
+        ops.append("X %d 0 %d %d 0 %s -" % (idx, first, last, ",".join(map(str, st[::-1]))))
     ops += ["Q", "D"]
     if r.random() < 0.3:
         ops += ["R", "Q", "M %d" % order[0], "Q", "D"]
